@@ -240,6 +240,9 @@ func RunCheck(opts RunOpts, t0 time.Time) (*Outcome, error) {
 			if r == nil || r.Status != "undecided" {
 				continue
 			}
+			if matchKnown(known.Findings, "", r.Obl.Name) >= 0 {
+				continue // a recorded open finding: it is expected not to discharge, no point in retrying it
+			}
 			bf := baseline.Functions[r.Obl.Func]
 			if bf != nil && (bf.Clean || containsBase(bf.Obligations, r.Obl.Name)) {
 				retry = append(retry, i)
